@@ -252,7 +252,7 @@ SPEC = {
              'reference operand vectors == decoded result in the requested endianness, documented result length, host '
              'discipline. Non-trivial: both widths >= 2.'),
     'assumptions': ['reference tables from vlib/refsem.py; wide circuits only on sampled rows'],
-    'subs': [Sub('host', host_cases, check_host, {'quick': 1200, 'thorough': 75000})],
+    'subs': [Sub('host', host_cases, arith.with_label_collisions(check_host), {'quick': 1200, 'thorough': 75000})],
     'sharded': {'width_sweep': sweep},
     'replay': {'width_sweep': replay_sweep},
     'required_classes': {'host': ['mul:' + k for k in ADD_MUL] + ['sq:DEFAULT', 'sq:POW2_M1', 'internal_operands', 'be', 'le',
